@@ -3,7 +3,7 @@ CONSTANTS N = 4
           C = 1
           Props = {1, 2}
           Endrs = {2, 3, 4}
-          VerifyCarried = FALSE
+          VerifyCarried = TRUE
           MaxMsgs = 5
           Alpha <- A4End
           EmitOn = TRUE
